@@ -490,6 +490,11 @@ func (w *dialWorld) opGet(name string) {
 				nwk++
 			}
 		}
+		for _, q := range reqs {
+			if q.path == "/.well-known/matrix/server" {
+				nwk++ // fetched over a connection that was already there
+			}
+		}
 		r.Check(nwk > 0, "C16", "resolution", "wellknown_step_skipped", "first request for server name %q: no attempt was made to fetch its well-known document; the network saw %s", name, fmtAttempts(all))
 		r.Probe("first_request_for_a_name_fetches_wellknown")
 	}
